@@ -12,3 +12,4 @@ import Props.C18
 #print axioms C18.log2_accurate
 #print axioms C18.expf_underflow
 #print axioms C18.expf_overflow
+#print axioms C18.cbrtf_odd
